@@ -606,6 +606,8 @@ class Machine:
 
     def call_value(self, fv, argv):
         if isinstance(fv, FnItem): return self.call(fv.name, argv)
+        if isinstance(fv, Closure):
+            return models.call_closure(self, fv, argv)
         raise Unsupported('call_value ' + repr(fv))
 
     def do_switch(self, v, targets, other):
@@ -686,11 +688,18 @@ class Machine:
             items = seq_cells(base)
             i = len(items) - p[2] if p[4] else p[2]
             return items[i]
+        if k == 'subslice':
+            base = self.place_cell(frame, p[1]).v
+            items = seq_cells(base)
+            lo = p[2]; hi = len(items) - p[3] if p[4] else p[3]
+            return Cell(SliceRef(items, lo, hi) if not isinstance(base, SliceRef) else SliceRef(base.items, base.lo + lo, base.lo + hi))
         raise Unsupported('place ' + k)
 
     def deref_cell(self, v):
         if isinstance(v, Ptr): return v.cell
         if isinstance(v, RcV): return v.cell
+        if isinstance(v, SliceRef): return Cell(v)      # *slice_ref as a place: indexing goes to the shared element cells
+        if isinstance(v, StrRef): return Cell(v.s)
         raise Unsupported(f'deref of {v!r}')
 
     # ---------------------------------------------------------- operands / rvalues
@@ -768,6 +777,12 @@ class Machine:
                 if isinstance(v, Sym):
                     return Sym(z3.fpNeg(v.e), 'f64') if v.ty == 'f64' else Sym(-v.e, v.ty)
                 return -v
+            if rv[1] == 'PtrMetadata':
+                # the length half of a slice / str fat pointer
+                if isinstance(v, SliceRef): return v.hi - v.lo
+                if isinstance(v, StrRef): return sum(models.char_utf8_len(self, ch) for ch in v.s.chars)
+                if isinstance(v, Ptr) and isinstance(v.cell.v, (VecV, ArrV)): return len(v.cell.v.items)
+                return UNIT
             raise Unsupported('unop ' + rv[1])
         if k == 'discr':
             v = self.place_cell(frame, rv[1]).v
@@ -954,6 +969,22 @@ class Machine:
                 return SliceRef(v.cell.v.items, 0, len(v.cell.v.items))
             return v
         if kind in ('PtrToPtr', 'FnPtrToPtr'):
+            return v
+        if kind == 'FloatToInt':
+            if isinstance(v, Sym):
+                # Rust `as`: saturating, NaN -> 0
+                b = INT_BITS[ty]; lo, hi = int_range(ty)
+                f = v.e
+                conv = z3.fpToSBV(z3.RTZ(), f, z3.BitVecSort(b)) if is_signed(ty) else z3.fpToUBV(z3.RTZ(), f, z3.BitVecSort(b))
+                flo, fhi = z3.FPVal(float(lo), z3.Float64()), z3.FPVal(float(hi), z3.Float64())
+                e = z3.If(z3.fpIsNaN(f), z3.BitVecVal(0, b), z3.If(z3.fpLEQ(f, flo), z3.BitVecVal(lo, b), z3.If(z3.fpGEQ(f, fhi), z3.BitVecVal(hi, b), conv)))
+                return Sym(e, ty)
+            if v != v: return 0
+            lo, hi = int_range(ty)
+            if v <= lo: return lo
+            if v >= hi: return hi
+            return int(v)
+        if kind == 'FloatToFloat':
             return v
         raise Unsupported(f'cast {kind} to {ty}')
 
